@@ -1038,6 +1038,346 @@ def hex_nibble_tables(b, src):
     return out
 
 
+# ---- source-to-source normalisation used by extractors that read a fragment's TEXT (opt-in, DESIGN.md §13 round 2) ----------
+
+def statements(body):
+    """[(start, end)] of the top-level statements of a block's inside (a `;`-terminated statement includes the `;`; a block-like
+    statement ends at its closing brace)"""
+    out, i, n = [], 0, len(body)
+    while i < n:
+        while i < n and body[i].isspace():
+            i += 1
+        if i >= n:
+            break
+        start, depth, j = i, 0, i
+        blocklike = bool(re.match(r"(if|match|for|while|loop|unsafe)\b|\{", body[i:]))
+        while j < n:
+            k = skip_literal(body, j)
+            if k is not None:
+                j = k
+                continue
+            c = body[j]
+            if c in OPEN:
+                depth += 1
+            elif c in CLOSE:
+                depth -= 1
+                if depth == 0 and c == "}" and blocklike and not re.match(r"\s*(else\b|\.|\?|;)", body[j + 1:]):
+                    j += 1
+                    break
+            elif c == ";" and depth == 0:
+                j += 1
+                break
+            j += 1
+        out.append((start, j))
+        i = j
+    return out
+
+
+def _replace_ident(text, name, repl):
+    """replace the identifier `name` (not a field `.name`, not a label `name:` of a struct literal, not a path segment) by repl"""
+    out, i, n = [], 0, len(text)
+    rx = re.compile(r"(?<![\w.])" + re.escape(name) + r"(?!\w)")
+    while i < n:
+        k = skip_literal(text, i)
+        if k is not None:
+            out.append(text[i:k])
+            i = k
+            continue
+        m = rx.match(text, i)
+        if m:
+            after = text[m.end():]
+            before = text[:i].rstrip()
+            if re.match(r"\s*:(?!:)", after) and (before.endswith("{") or before.endswith(",")):
+                out.append(text[i:m.end()])             # field label
+            elif re.match(r"\s*(::|!\s*[\(\[{])", after) or before.endswith("::"):
+                out.append(text[i:m.end()])             # path / macro name
+            else:
+                out.append(repl)
+            i = m.end()
+            continue
+        out.append(text[i])
+        i += 1
+    return "".join(out)
+
+
+def inline_lets(body, only=None):
+    """`let tmp = EXPR; … tmp …`  ->  `… (EXPR) …` for immutable, simply named, singly bound locals whose initialiser has no
+    `?` / `t!` (so that moving it does not move an early exit).  Applied repeatedly, innermost blocks included.  The result is
+    for matching only (an expression used twice is duplicated)."""
+    changed = True
+    rounds = 0
+    while changed and rounds < 8:
+        changed, rounds = False, rounds + 1
+        for m in re.finditer(r"\blet\s+([a-z_]\w*)\s*(?::\s*[^=;]+?)?=\s*", body):
+            name = m.group(1)
+            if only is not None and name not in only:
+                continue
+            if len(re.findall(r"\blet\s+(?:mut\s+)?" + name + r"\b", body)) != 1:
+                continue
+            if re.search(r"[(,|]\s*(?:ref\s+|mut\s+|&)?" + name + r"\s*[),|@]", body[:m.start()]) and False:
+                continue
+            # the initialiser, up to its `;`
+            i, depth, j = m.end(), 0, m.end()
+            while j < len(body):
+                k = skip_literal(body, j)
+                if k is not None:
+                    j = k
+                    continue
+                if body[j] in OPEN:
+                    depth += 1
+                elif body[j] in CLOSE:
+                    depth -= 1
+                    if depth < 0:
+                        break
+                elif body[j] == ";" and depth == 0:
+                    break
+                j += 1
+            if j >= len(body) or body[j] != ";":
+                continue
+            init = body[i:j].strip()
+            if "?" in re.sub(r'"(?:\\.|[^"\\])*"', "", init) or re.search(r"\b(t|try_opt|bail|err)!\s*\(", init) or not init:
+                continue
+            rest = body[j + 1:]
+            if not re.search(r"(?<![\w.])" + name + r"(?!\w)", rest):
+                continue
+            if re.search(r"(?<![\w.])" + name + r"\s*(?:[-+*/%|&^]|<<|>>)?=(?!=)", rest):
+                continue                                 # assigned later: not a pure alias
+            body = body[:m.start()] + _replace_ident(rest, name, "(" + init + ")")
+            changed = True
+            break
+    return body
+
+
+def call_sites(body, fname):
+    """[(start, end, [argument texts])] of the calls `fname(..)`, `self.fname(..)`, `Self::fname(..)` in body"""
+    out = []
+    for m in re.finditer(r"(?<![\w])(?:self\s*\.\s*|Self\s*::\s*)?" + re.escape(fname) + r"\s*\(", body):
+        if re.search(r"\bfn\s+$", body[:m.start()]):
+            continue
+        o = m.end() - 1
+        c = close_of(body, o)
+        out.append((m.start(), c + 1, split_top(body[o + 1:c], ",")))
+    return out
+
+
+def private_fns(src):
+    """names of the non-`pub` fns defined in src"""
+    return [m.group(2) for m in re.finditer(r"(?m)^(\s*)(?:#\[[^\]]*\]\s*)*(?:const\s+|unsafe\s+)?fn\s+(\w+)", src)]
+
+
+def inline_calls(body, src, depth=3, exclude=()):
+    """Replace calls to private helper fns of src that are used as a STATEMENT (`helper(a, &mut b)?;` / `helper(..);`) or as the
+    initialiser of a let (`let x = helper(..);` / `…?;`) by the helper's body with its parameters renamed to the argument
+    expressions (simple arguments only: identifiers, `&x`, `&mut x`, `self.f`, literals).  A trailing `Ok(())` / `Ok(value)` /
+    `value` of the helper becomes nothing / the let's initialiser.  Followed `depth` levels (a simple chain of helpers)."""
+    helpers = set(private_fns(src)) - set(exclude)
+    for _ in range(depth):
+        progressed = False
+        for name in sorted(helpers):
+            for (a, b, args) in call_sites(body, name):
+                stmt = re.match(r"\s*(\?)?\s*;", body[b:])
+                lead = body[:a]
+                mlet = re.search(r"\blet\s+((?:mut\s+)?\w+)\s*(?::\s*[^=;]+?)?=\s*$", lead)
+                at_stmt_start = bool(re.search(r"(?:^|[;{}])\s*$", lead))
+                if not stmt or not (at_stmt_start or mlet):
+                    continue
+                if not all(re.fullmatch(r"(?:&\s*(?:mut\s+)?)?(?:\*\s*)?[\w.]+(?:\(\))?|" + BYTE, x) for x in args):
+                    continue
+                try:
+                    params = fn_params(src, name)
+                    hb = fn_body(src, name)
+                except KeyError:
+                    continue
+                if len(params) != len(args) or re.search(r"\b" + name + r"\s*\(", hb):
+                    continue
+                text = hb
+                for prm, arg in zip(params, args):
+                    arg = re.sub(r"^&\s*(?:mut\s+)?", "", arg).strip()
+                    text = _replace_ident(text, prm, arg)
+                text = re.sub(r"(?m)^\s*use\s+[^;]*;", "", text)
+                sts = statements(text)
+                tail = text[sts[-1][0]:sts[-1][1]].strip() if sts else ""
+                head = text[:sts[-1][0]] if sts else ""
+                value = None
+                if not tail.endswith(";") and not re.match(r"(if|match|for|while|loop)\b", tail):
+                    mo = re.fullmatch(r"Ok\(\s*(.*)\s*\)", tail, flags=re.S)
+                    value = (mo.group(1) if (mo and stmt.group(1)) else tail).strip()
+                else:
+                    head, value = text, None
+                if mlet:
+                    if value in (None, "", "()"):
+                        continue
+                    new = head + "\nlet " + mlet.group(1) + " = " + value + ";"
+                    body = body[:mlet.start()] + new + body[b + stmt.end():]
+                else:
+                    body = body[:a] + head + ("" if value in (None, "", "()") else value + ";") + body[b + stmt.end():]
+                progressed = True
+                break
+            if progressed:
+                break
+        if not progressed:
+            break
+    return body
+
+
+def instantiated_callees(body, src, depth=3, _seen=()):
+    """[(fn name, body text with the parameters replaced by the argument expressions of the call)] for every call in `body` to a
+    private fn of src, followed through a chain of helpers up to `depth` levels.  Lets an extractor look for a step "in the
+    function or in the helper it was moved to" while keeping track of WHICH caller values the helper works on."""
+    out = []
+    if depth <= 0:
+        return out
+    for name in private_fns(src):
+        if name in _seen:
+            continue
+        for (a, b, args) in call_sites(body, name):
+            try:
+                params, hb = fn_params(src, name), fn_body(src, name)
+            except KeyError:
+                continue
+            if len(params) != len(args):
+                continue
+            text = hb
+            for prm, arg in zip(params, args):
+                arg = re.sub(r"^&\s*(?:mut\s+)?", "", arg).strip()
+                if re.fullmatch(r"[\w.]+(?:\(\))?|" + BYTE, arg):
+                    text = _replace_ident(text, prm, arg)
+            out.append((name, text))
+            out += instantiated_callees(text, src, depth - 1, _seen + (name,))
+    return out
+
+
+def enclosing_block(text, pos):
+    """(start, end) of the inside of the innermost `{ … }` of text that contains pos"""
+    stack, i = [], 0
+    while i < len(text):
+        k = skip_literal(text, i)
+        if k is not None:
+            i = k
+            continue
+        c = text[i]
+        if c == "{":
+            stack.append(i)
+        elif c == "}" and stack:
+            o = stack.pop()
+            if o < pos <= i:
+                return o + 1, i
+        i += 1
+    return 0, len(text)
+
+
+def accepted_upto(src, name, bound, scopes=()):
+    """the one-parameter checking fn `name` (returns Ok / the value for an admissible argument, an error otherwise — as
+    `if x > B { bail } Ok(x)`, `if x <= B { Ok(x) } else { Err }`, a match, …) is run for bound - 1, bound, bound + 1:
+    returns bound iff exactly the first two are accepted"""
+    got = []
+    for v in (bound - 1, bound, bound + 1):
+        try:
+            o = rsx.run_fn(_self_module(), src, name, [v], scopes=list(scopes))
+        except rsx.Unknown as ex:
+            raise ValueError("cannot evaluate %s(%d): %s" % (name, v, ex))
+        got.append(not o.is_err and o.how == "value")
+    if got != [True, True, False]:
+        raise ValueError("%s does not accept exactly the values up to %d: %r" % (name, bound, got))
+    return bound
+
+
+def branches(body, var):
+    """A decision on `var` against string / byte / integer literals, written as an `if var == "a" {A} else if var == "b" {B} else
+    {C}` chain (in any order, `"a" == var` too) or as `match var { "a" => A, "b" => B, _ => C }`: {literal text: block text},
+    with the key None for the final else / wildcard.  Keys are the literals as written ("f", b'x' -> its value as int)."""
+    out = {}
+
+    def key(tok):
+        tok = tok.strip()
+        if re.fullmatch(r'b?"(?:\\.|[^"\\])*"', tok):
+            return bytes(str_bytes(tok)).decode("latin-1")
+        return int_value(tok)
+    v = re.escape(var)
+    m = re.search(r"\bif\s+(?:" + v + r"\s*==\s*([^{&|]+?)|([^{&|=]+?)\s*==\s*" + v + r")\s*\{", body)
+    mm = re.search(r"\bmatch\s+\*?" + v + r"(?:\.as_str\(\)|\.as_bytes\(\)|\.as_ref\(\))?\s*\{", body)
+    if m and (not mm or m.start() < mm.start()):
+        i = m.start()
+        while True:
+            m = re.compile(r"if\s+(?:" + v + r"\s*==\s*([^{&|]+?)|([^{&|=]+?)\s*==\s*" + v + r")\s*\{").match(body, i)
+            if not m:
+                raise ValueError("if-chain on %s has a branch that is not `== literal`" % var)
+            o = m.end() - 1
+            c = close_of(body, o)
+            k = key(m.group(1) or m.group(2))
+            if k in out:
+                raise ValueError("duplicate key %r" % (k,))
+            out[k] = body[o + 1:c]
+            e = re.compile(r"\s*else\s*").match(body, c + 1)
+            if not e:
+                out.setdefault(None, "")
+                return out
+            if body.startswith("{", e.end()):
+                c2 = close_of(body, e.end())
+                out[None] = body[e.end() + 1:c2]
+                return out
+            i = e.end()
+    if mm:
+        o = mm.end() - 1
+        for arm in _arms_of_block(body[o + 1:close_of(body, o)]):
+            if arm.guard is not None:
+                raise ValueError("guarded arm")
+            for p in arm.pats:
+                if p == "_" or re.fullmatch(r"[a-z_]\w*", p):
+                    out[None] = arm.expr
+                else:
+                    k = key(p)
+                    if k in out:
+                        raise ValueError("duplicate key %r" % (k,))
+                    out[k] = arm.expr
+        return out
+    raise KeyError("no decision on " + var)
+
+
+def if_conditions(body):
+    """[(condition text, then-block text, start offset)] of every boolean `if` in body (nested ones included), read with the
+    rsx parser (so conditions that contain braces — a `match`, a struct pattern — are delimited correctly)"""
+    out = []
+    for m in re.finditer(r"\bif\b(?!\s+let\b)", body):
+        if skip_inside_literal(body, m.start()):
+            continue
+        try:
+            p = rsx.Parser(body[m.end():])
+            cond = p.parse_expr(no_struct=True)
+            if not p.at("{"):
+                continue
+            o = m.end() + p.peek().pos
+            out.append((p.text(cond), body[o + 1:close_of(body, o)], m.start()))
+        except (rsx.Unknown, KeyError, IndexError):
+            continue
+    return out
+
+
+def skip_inside_literal(s, pos):
+    """is pos inside a string / char literal of s? (scan from the start; bodies are short)"""
+    i = 0
+    while i < pos:
+        k = skip_literal(s, i)
+        if k is not None:
+            if k > pos:
+                return True
+            i = k
+        else:
+            i += 1
+    return False
+
+
+def guard_values(cond, path, src, scopes=(), domain=range(256)):
+    """`cond` is a disjunction `A || B || …` that rejects an input; the values of `path` (an expression such as
+    `params.bits_per_component`, or a variable) for which the disjuncts that mention it hold — by evaluation"""
+    v = "__v"
+    parts = [d for d in split_top(strip_parens(cond), "||") if re.search(r"(?<![\w.])" + re.escape(path) + r"(?!\w)", d)]
+    if not parts:
+        raise ValueError("condition does not mention " + path)
+    expr = " || ".join("(" + re.sub(r"(?<![\w.])" + re.escape(path) + r"(?!\w)", v, d) + ")" for d in parts)
+    return eval_set(expr, v, src, scopes=scopes, domain=domain)
+
+
 class Gen:
     def __init__(self):
         self.defs = []      # (name, coq type, coq term, anchor)
